@@ -177,6 +177,7 @@ def check(prop, tier, only=None, list_only=False):
             print(q.qid, "|", q.bound, "| timeout", q.timeout)
         return 0
     assert len({q.qid for q in qs}) == len(qs), "duplicate query ids"
+    n_frozen = engine.freeze_process_state()     # every path / replay starts from the package state as of now
     known, fixed = findings.load(prop)
     budget = getattr(mod, "BUDGET_S", {}).get(tier)
     evdir = os.path.join(ROOT, "evidence")
@@ -334,6 +335,7 @@ def check(prop, tier, only=None, list_only=False):
             "machinery_errors": machinery_errors,
             "violations_detail": violations,
             "selftest_cases": n_self, "library_model_comparisons_vs_cpython": n_modelcheck,
+            "package_containers_restored_per_path": n_frozen,
             "outside_the_bound": getattr(mod, "OUTSIDE", []),
             "stubs": getattr(mod, "STUBS", []),
             "harness_stats": getattr(mod, "STATS", {}),
